@@ -1,13 +1,10 @@
 """Writes /verif/MANIFEST.json from the table below and validates it against the schema."""
 import json, sys
 ALL = ['C%02d' % i for i in range(1, 21)]
-CLAIMED = {
- 'C11': dict(
-   technique='Coq proof (induction over the DP) + exact differential correspondence of the Gallina model with wagner_whitin.py',
-   text='Theorems (closed under the global context) about the executable Gallina model Alg/WW.v of wagner_whitin(): the cost-to-go array satisfies the DP recursion with the pointer attaining the minimum, the reported cost is <= the cost of EVERY ordering plan (all subsets of ordering periods containing period 1, any horizon), equals the cost of exactly the returned plan, the returned orders cover cumulative demand in every period with equal totals, and the three parameter shapes give the same result. The model is tied to /repo by exact (rational) comparison of all four outputs with the implementation on generated instances, incl. a malformed stream; a brute-force oracle (2^(T-1) plans) on the implementation turns a broken obligation into a replay.',
-   design_ref='DESIGN.md §6 C11',
-   note='Trusted: Coq kernel, vm_compute, the hand-written model (validated by correspondence, bounded by generator quality: T<=8 quick / T<=12 thorough, values k/4), the Python harness. Floating-point rounding is not modelled (inputs are chosen so the implementation computes exactly). No axioms.'),
-}
+import glob, os
+CLAIMED = {}
+for f in sorted(glob.glob('/verif/py/props/c*.claim.json')):
+    CLAIMED[os.path.basename(f)[:3].upper()] = json.load(open(f))
 NA_REASON = 'not yet built: the Coq model and theorems for this property are not committed yet (DESIGN.md §10 build order); no check is claimed rather than claiming one that decides nothing'
 def main():
     checks = []
